@@ -41,6 +41,8 @@ type Pipe struct {
 	lastWriteEnd  []int
 	WLog          []WRec // every write: end offset and step, so that a reader can date any byte
 	OnRead        func(n int) // harness observer (called by the reading goroutine)
+	Bounds        []int       // explicit segment boundaries (stream offsets, ascending): a Read never crosses the next one
+	BufGrow       int
 }
 
 type WRec struct{ End, Step int }
@@ -125,6 +127,12 @@ func (c *Conn) Read(b []byte) (int, error) {
 	have := n
 	if n > len(b) {
 		n = len(b)
+	}
+	for len(in.Bounds) > 0 && in.Bounds[0] <= in.Consumed {
+		in.Bounds = in.Bounds[1:]
+	}
+	if len(in.Bounds) > 0 && in.Consumed+n > in.Bounds[0] {
+		n = in.Bounds[0] - in.Consumed
 	}
 	if n > 1 {
 		pol := in.Seg
